@@ -40,6 +40,8 @@ def gen_expr(rng, depth):
 
 def render(e, rng, lvl=0):
     k = e[0]
+    if k == "str":
+        return "'%s'" % e[1]
     if k == "num":
         return str(e[1])
     if k == "col":
@@ -94,6 +96,8 @@ def fmt_float(x):
 def to_float_value(e, ent):
     """(printed text, float value) of a sub-expression for one entry."""
     k = e[0]
+    if k == "str":
+        return e[1], 0.0
     if k == "num":
         return str(e[1]), float(e[1])
     if k == "col":
@@ -162,6 +166,9 @@ def run(ctx):
                 exprs[1] = ("bin", rng.choice([o for o in "+-*/" if o != a[1]]), a[2], a[3])
                 if k >= 3 and a[2][0] == "bin":
                     exprs[2] = ("bin", a[2][1], a[2][2], ("bin", a[1], a[2][3], a[3]))
+        if rng.random() < 0.3:
+            # a quoted literal as a column of its own, spelling the cache key of a neighbour (a column's Display name, an expression's Display text)
+            exprs.insert(rng.randrange(len(exprs) + 1), ("str", rng.choice(["Size", "Name", "Hardlinks", "size", "(Size + 1)", "Length(Name)", "-Size", "abc", "7", "(Size - (4 - 1))"])))
         texts = [render(e, rng) for e in exprs]
         jobs.append(dict(exprs=exprs, texts=texts))
 
